@@ -867,12 +867,13 @@ def compile_comprehension(compiler, expr, root, parts, final):
             if p.tag in ("if", "do"):
                 tag_value = compiler.compile(p.value)
             else:
-                tag_value = [
-                    compiler._storeize(p.value[0], compiler.compile(p.value[0])),
-                    compiler.compile(p.value[1]),
-                ]
+                target = compiler._storeize(p.value[0], compiler.compile(p.value[0]))
+                # References made by the first iterable belong to the
+                # enclosing scope.
+                first = len(scope.seen) if p is parts[0] and not is_for else None
+                tag_value = [target, compiler.compile(p.value[1])]
                 if not is_for:
-                    scope.iterator(tag_value[0])
+                    scope.iterator(target, first)
             new_parts.append(Tag(p.tag, tag_value))
         parts = new_parts
 
